@@ -207,6 +207,15 @@ mut("C19-cof-position-shift", MTH, "return CircleOfFifths.circle_of_fifths_order
 mut("C19-detok-rest-capacity", TOK, "                    cur_time_bar += int(token_parts[i][1])\n                    cur_bar_capacity_remaining -= int(token_parts[i][1])", "                    cur_time_bar += int(token_parts[i][1])", ["C19", "C01"])
 mut("C19-info-bar-time-not-reset", TOK, "                cur_time += cur_bar_capacity_remaining\n                cur_time_bar = 0\n                cur_bar_capacity_remaining = cur_bar_capacity_total\n\n                if not flag_impute_values:", "                cur_time += cur_bar_capacity_remaining\n                cur_bar_capacity_remaining = cur_bar_capacity_total\n\n                if not flag_impute_values:", ["C19"])
 
+# C11
+mut("C11-quantise-true-division", ABS, "positions_left = [(message_original_time // step_size) * step_size for step_size in step_sizes]", "positions_left = [int(message_original_time / step_size) * step_size * 1.0 for step_size in step_sizes]", ["C11"])
+mut("C11-internal-cap-not-int", REL, "Message(message_type=MessageType.INTERNAL, channel=default_channel, time=int(current_point_in_time)))", "Message(message_type=MessageType.INTERNAL, channel=default_channel, time=current_point_in_time / 1))", ["C11"])
+mut("C11-length-bar-not-int", SEQ, "length_bar = int(PPQN * (current_ts_numerator / (current_ts_denominator / 4)))", "length_bar = PPQN * (current_ts_numerator / (current_ts_denominator / 4))", ["C11"])
+mut("C11-scale-float", REL, "                    msg.time = msg.time * factor\n        # Handle", "                    msg.time = msg.time * float(factor)\n        # Handle", ["C11", "C18"])
+mut("C11-cutoff-float", ABS, "message_pairing[1].time = message_pairing[0].time + reduced_length", "message_pairing[1].time = message_pairing[0].time + reduced_length * 1.0", ["C11"])
+mut("C11-detok-capacity-float", TOK, "        cur_bar_capacity_total = int(self.ppqn * 4 * cur_time_signature_numerator / cur_time_signature_denominator)\n        cur_bar_capacity_remaining = cur_bar_capacity_total\n        prv_track = 0", "        cur_bar_capacity_total = self.ppqn * 4 * cur_time_signature_numerator / cur_time_signature_denominator\n        cur_bar_capacity_remaining = cur_bar_capacity_total\n        prv_track = 0", ["C11"])
+mut("C11-pad-float", REL, "Message(message_type=MessageType.WAIT, channel=default_channel, time=padding_length - current_length))", "Message(message_type=MessageType.WAIT, channel=default_channel, time=(padding_length - current_length) / 1))", ["C11"])
+
 
 def run(cmd, env):
     p = subprocess.run(cmd, cwd=ROOT, env=env, capture_output=True, text=True)
